@@ -172,6 +172,8 @@ type Record struct {
 	FinalTail   int   `json:"finalTail"`
 	TailWant    int   `json:"tailWant"`
 	HeadWant int `json:"headWant"`
+	RefillEarly string `json:"refillEarly,omitempty"` // kind refill: what the reader of a height above the head had returned before that height was appended (none = it waited)
+	RefillFinal string `json:"refillFinal,omitempty"` // ... and after it was appended
 	TailBad  int `json:"tailBad"` // failed deletions after which Tail() was not a stored header
 	Missing     []int `json:"missing"`
 	RestartHead int   `json:"restartHead"` // Head / Tail of a fresh Store on the same datastore after a clean Stop (-1: could not start)
